@@ -34,6 +34,7 @@ type N struct {
 	rt                     *RT
 	Idx                    int
 	lookups                []string // names looked up through the container inside Init
+	swallow                bool     // a failing look-up is ignored (best-effort warm-up); Init reports its completion
 }
 
 func (n *N) ID() string        { return n.Nm }
@@ -50,13 +51,19 @@ func (n *N) Init() error {
 		if n.rt.App != nil {
 			_, err := n.rt.App.GetComponentByName(t)
 			n.rt.Event(fmt.Sprintf("lookup:%s->%s:err=%v", n.Nm, t, err != nil))
-			if err != nil {
+			if err != nil && !n.swallow {
 				// an ordinary program does not swallow the failure of something it needs
 				return err
 			}
 		}
 	}
-	return n.rt.Fault("init:" + n.Nm)
+	if err := n.rt.Fault("init:" + n.Nm); err != nil {
+		return err
+	}
+	if n.rt.InitDone {
+		n.rt.Event("init-done:" + n.Nm)
+	}
+	return nil
 }
 
 // ProcNode is a user post-processor that is itself an ordinary component with injection points
@@ -366,23 +373,24 @@ const (
 
 // GraphProg is a dependency-graph program (pure data).
 type GraphProg struct {
-	N        int     `json:"n"`
-	Edges    [][]int `json:"edges"` // Edges[i][j]: kind of the injection point of i that targets j
-	Lazy     []bool  `json:"lazy,omitempty"`
-	Wrap     []int   `json:"wrap,omitempty"`
-	Obs      int     `json:"observers,omitempty"`
-	Reg      []int   `json:"reg,omitempty"`  // registration order (default 0..n-1)
-	Base     []int   `json:"base,omitempty"` // base iteration order of the user names
-	Mode     int     `json:"mode,omitempty"`
-	SliceOpt bool    `json:"optional_slices,omitempty"` // the slice points are declared required=false
-	Faults   bool    `json:"faults,omitempty"`
-	ErrShape int     `json:"err_shape,omitempty"`
-	Kinds    string  `json:"kinds,omitempty"`
-	Choices  []int   `json:"choices,omitempty"`
-	Family   string  `json:"family,omitempty"`
-	Config   bool    `json:"config,omitempty"` // bind slot V0 of every node from configuration (value tag)
-	Full     bool    `json:"full,omitempty"`   // add two loaders, two runners, a scanner and a factory post-processor (fault sites)
-	Extra    []Extra `json:"extra,omitempty"`  // additional unsatisfiable points
+	N             int     `json:"n"`
+	Edges         [][]int `json:"edges"` // Edges[i][j]: kind of the injection point of i that targets j
+	Lazy          []bool  `json:"lazy,omitempty"`
+	Wrap          []int   `json:"wrap,omitempty"`
+	Obs           int     `json:"observers,omitempty"`
+	Reg           []int   `json:"reg,omitempty"`  // registration order (default 0..n-1)
+	Base          []int   `json:"base,omitempty"` // base iteration order of the user names
+	Mode          int     `json:"mode,omitempty"`
+	SwallowLookup bool    `json:"lookup_errors_ignored,omitempty"` // Init ignores the error of its look-ups; every Init logs its successful completion
+	SliceOpt      bool    `json:"optional_slices,omitempty"`       // the slice points are declared required=false
+	Faults        bool    `json:"faults,omitempty"`
+	ErrShape      int     `json:"err_shape,omitempty"`
+	Kinds         string  `json:"kinds,omitempty"`
+	Choices       []int   `json:"choices,omitempty"`
+	Family        string  `json:"family,omitempty"`
+	Config        bool    `json:"config,omitempty"` // bind slot V0 of every node from configuration (value tag)
+	Full          bool    `json:"full,omitempty"`   // add two loaders, two runners, a scanner and a factory post-processor (fault sites)
+	Extra         []Extra `json:"extra,omitempty"`  // additional unsatisfiable points
 	// OrderedProcs: the substituting processor gets Order 100 and the processor-with-dependencies
 	// Order 200 (both in the Ordered class); ProcNodeFirst makes the registries enumerate the
 	// latter before the former
@@ -605,7 +613,7 @@ func IsNilSlot(v any) bool {
 // RunGraph executes one real start of the program under the chooser and collects observations.
 func RunGraph(p *GraphProg, ch *envx.Chooser) *GraphObs {
 	core.Tick()
-	rt := &RT{Ch: ch, Faults: p.Faults, Mode: p.Mode, ErrShape: p.ErrShape}
+	rt := &RT{Ch: ch, Faults: p.Faults, Mode: p.Mode, ErrShape: p.ErrShape, InitDone: p.SwallowLookup}
 	o := &GraphObs{Prog: p, RT: rt}
 	names := map[string]bool{}
 	tags, _ := p.Tags()
@@ -624,6 +632,7 @@ func RunGraph(p *GraphProg, ch *envx.Chooser) *GraphObs {
 	}
 	for _, l := range p.InitLookup {
 		o.Nodes[l[0]].lookups = append(o.Nodes[l[0]].lookups, Name(l[1], p.N))
+		o.Nodes[l[0]].swallow = p.SwallowLookup
 	}
 	rt.User = userPred(names)
 	if p.Base != nil {
